@@ -236,7 +236,8 @@ def rule_f5(F):
     defs = mir.Defs(b)
     dom = mir.dominators(b)
     pk = param_keys(b)
-    ex = events(b, defs, "expr", pk.get("expr"))
+    from .c08 import select_param
+    ex = events(b, defs, "expr", select_param(b, "E0"))
     dr = [bi for bi, t in mir.calls(b) if hir.last(mir.callee(t)) == "emit_drop"]
     da = [bi for bi, t in mir.calls(b) if hir.last(mir.callee(t)) == "do_assign"]
     r.inst("assign chain", {"expr": ex, "emit_drop": dr, "do_assign": da})
